@@ -31,6 +31,13 @@ theorem path_selects_self (top : Node) (r : Ref) (steps : List Step) (hw : top.w
     (hp : pathOf top r = some steps) : evalSteps top steps = [r] :=
   evalSteps_pathOfWith sameKind top r steps hw (pathSafe_of_agree sameKind sameKind_eq_test r.path top) hp
 
+/-- The hypothesis `wf` is necessary: with two attributes of the same name the path of one
+selects both (kernel-checked); such a tree cannot come out of an XML parser. -/
+theorem wf_necessary :
+    let t := docNode [.elem ⟨"", "r"⟩ [] [(⟨"", "a"⟩, "1"), (⟨"", "a"⟩, "2")] []]
+    t.wf = false ∧ pathOf t ⟨[0], .attr 1⟩ = some [.child ⟨"", "r"⟩ 1, .attr ⟨"", "a"⟩] ∧
+    evalSteps t [.child ⟨"", "r"⟩ 1, .attr ⟨"", "a"⟩] = [⟨[0], .attr 0⟩, ⟨[0], .attr 1⟩] := by decide
+
 /-- For element, text, comment and PI nodes the well-formedness hypothesis is not needed. -/
 theorem path_selects_self_node (top : Node) (is : List Nat) (steps : List Step)
     (hp : pathOf top ⟨is, .self⟩ = some steps) : evalSteps top steps = [⟨is, .self⟩] :=
@@ -173,6 +180,13 @@ theorem render_fn_injective (s₁ s₂ : List Step) (h₁ : s₁.all Step.ok = t
   rw [h, e₂] at e₁
   simp only [Option.some.injEq, Prod.mk.injEq, true_and] at e₁
   exact e₁.symm
+
+/-- The hypothesis `Step.ok` is necessary: with a `}` inside a namespace URI two different step
+lists have the same text `/Q{a}b[1]/Q{}c[1]` (kernel-checked). -/
+theorem render_not_injective_without_ok :
+    let s₁ : List Step := [.child ⟨"a}b[1]/Q{", "c"⟩ 1]
+    let s₂ : List Step := [.child ⟨"a", "b"⟩ 1, .child ⟨"", "c"⟩ 1]
+    renderAbsC s₁ = renderAbsC s₂ ∧ s₁ ≠ s₂ ∧ s₁.all Step.ok = false ∧ s₂.all Step.ok = true := by decide
 
 /-- The steps generated for a tree whose names are NCName-like are `ok`. -/
 theorem path_steps_ok (top : Node) (r : Ref) (steps : List Step) (hn : top.namesOK = true)
